@@ -61,10 +61,49 @@ fn chunked(c: &mut Case, word: &str, xs: &[i64]) {
 }
 
 fn topk_case(family: &str, k: usize, xs: &[i64]) -> Case {
+    let v: Vec<i128> = xs.iter().map(|x| *x as i128).collect();
+    topk_case_t(family, k, "i64", &v)
+}
+
+/// top_k instantiated for item type `ty` (one of TOPK_TYPES); the Lean side works on Int and ignores the tag
+fn topk_case_t(family: &str, k: usize, ty: &str, xs: &[i128]) -> Case {
     let mut c = Case::new(family);
-    c.op(format!("T topk {k}"));
-    chunked(&mut c, "in", xs);
+    c.op(format!("T topk {k} {ty}"));
+    if xs.is_empty() {
+        c.op("in");
+    }
+    for ch in xs.chunks(8) {
+        c.op(format!("in {}", join(ch.iter(), " ")));
+    }
     c
+}
+
+/// every type that has a `ComparisonValue` impl (`cv!` in src/top_k.rs)
+const TOPK_TYPES: [&str; 12] = ["u8", "u16", "u32", "u64", "u128", "usize", "i8", "i16", "i32", "i64", "i128", "isize"];
+const TOPK_SIGNED: [&str; 6] = ["i8", "i16", "i32", "i64", "i128", "isize"];
+
+fn ty_bounds(ty: &str) -> (i128, i128) {
+    match ty {
+        "u8" => (0, u8::MAX as i128),
+        "u16" => (0, u16::MAX as i128),
+        "u32" => (0, u32::MAX as i128),
+        "u64" | "usize" => (0, u64::MAX as i128),
+        "u128" => (0, i128::MAX), // the upper half of u128 is not representable in the generator's i128
+        "i8" => (i8::MIN as i128, i8::MAX as i128),
+        "i16" => (i16::MIN as i128, i16::MAX as i128),
+        "i32" => (i32::MIN as i128, i32::MAX as i128),
+        "i64" | "isize" => (i64::MIN as i128, i64::MAX as i128),
+        "i128" => (i128::MIN, i128::MAX),
+        _ => panic!("type"),
+    }
+}
+
+/// uniform in lo..=hi for any i128 bounds
+fn rnd128(rng: &mut Rng, lo: i128, hi: i128) -> i128 {
+    let span = (hi as u128).wrapping_sub(lo as u128).wrapping_add(1);
+    let r = ((rng.next() as u128) << 64) | rng.next() as u128;
+    let off = if span == 0 { r } else { r % span };
+    (lo as u128).wrapping_add(off) as i128
 }
 
 fn nf_case(family: &str, cap: u32, items: &[u32]) -> Case {
@@ -346,16 +385,18 @@ fn gen_lt(rng: &mut Rng, tier: Tier, cases: &mut Vec<Case>) {
 }
 
 fn gen_topk(rng: &mut Rng, tier: Tier, cases: &mut Vec<Case>) {
-    // all (input, k) for inputs over {0,1,2} up to a length
+    let mut rot = 0usize; // rotates the item type over the cases of a family
+    // all (input, k) for inputs over {0,1,2} up to a length, every item type in turn
     let maxlen = match tier {
         Tier::Quick => 5,
         Tier::Thorough => 7,
     };
     for len in 0..=maxlen {
-        let mut xs = vec![0i64; len];
+        let mut xs = vec![0i128; len];
         loop {
             for k in 0..=len + 2 {
-                cases.push(topk_case("topk-exh", k, &xs));
+                rot += 1;
+                cases.push(topk_case_t("topk-exh", k, TOPK_TYPES[rot % TOPK_TYPES.len()], &xs));
             }
             let mut p = 0;
             while p < len {
@@ -371,15 +412,91 @@ fn gen_topk(rng: &mut Rng, tier: Tier, cases: &mut Vec<Case>) {
             }
         }
     }
-    // all permutations of 0..6 with every k (distinct items, every arrival order)
+    // all (input, k) for inputs over {-2,-1,0,1,2}: negatives and the default value 0 on both sides of
+    // the threshold, signed item types in turn
+    let maxlen_s = match tier {
+        Tier::Quick => 4,
+        Tier::Thorough => 6,
+    };
+    for len in 0..=maxlen_s {
+        let mut xs = vec![-2i128; len];
+        loop {
+            for k in 0..=len + 1 {
+                rot += 1;
+                cases.push(topk_case_t("topk-exh-signed", k, TOPK_SIGNED[rot % TOPK_SIGNED.len()], &xs));
+            }
+            let mut p = 0;
+            while p < len {
+                xs[p] += 1;
+                if xs[p] <= 2 {
+                    break;
+                }
+                xs[p] = -2;
+                p += 1;
+            }
+            if p == len {
+                break;
+            }
+        }
+    }
+    // all permutations of six distinct items with every k (every arrival order); -3..2 for signed types
     for perm in permutations(6) {
-        let xs: Vec<i64> = perm.iter().map(|x| *x as i64).collect();
         let ks: Vec<usize> = match tier {
             Tier::Quick => vec![1 + (perm[0] % 3)],
             Tier::Thorough => (0..=7).collect(),
         };
         for k in ks {
-            cases.push(topk_case("topk-perm", k, &xs));
+            rot += 1;
+            let ty = TOPK_TYPES[rot % TOPK_TYPES.len()];
+            let shift = if ty.starts_with('i') { 3 } else { 0 };
+            let xs: Vec<i128> = perm.iter().map(|x| *x as i128 - shift).collect();
+            cases.push(topk_case_t("topk-perm", k, ty, &xs));
+        }
+    }
+    // directed: the k-th smallest of the first 2k items (the threshold after the first compaction) is
+    // exactly a boundary value of the type - 0 = Integral::default(), MIN, MIN+1, -1, 1, MAX-1, MAX - and
+    // smaller / equal / larger items follow (some cases reach a second compaction)
+    let reps = match tier {
+        Tier::Quick => 2,
+        Tier::Thorough => 25,
+    };
+    for ty in TOPK_TYPES {
+        let (lo, hi) = ty_bounds(ty);
+        let mut bounds: Vec<i128> = vec![0, 1, lo, lo + 1, hi - 1, hi];
+        if lo < 0 {
+            bounds.push(-1);
+        }
+        bounds.sort();
+        bounds.dedup();
+        for b in bounds {
+            for k in 1..=4usize {
+                for _ in 0..reps {
+                    // near: values close to b, clipped to the type
+                    let near_lo = if b.checked_sub(lo).map_or(true, |d| d > 6) { b - 6 } else { lo };
+                    let near_hi = if hi.checked_sub(b).map_or(true, |d| d > 6) { b + 6 } else { hi };
+                    let mut xs: Vec<i128> = Vec::new();
+                    for _ in 0..k - 1 {
+                        xs.push(rnd128(rng, near_lo, b)); // at most b
+                    }
+                    xs.push(b);
+                    for _ in 0..k {
+                        xs.push(rnd128(rng, b, near_hi)); // at least b
+                    }
+                    rng.shuffle(&mut xs);
+                    let tail = 1 + rng.below(3 * k as u64 + 2) as usize;
+                    for i in 0..tail {
+                        let x = match rng.below(6) {
+                            0 | 1 | 2 => rnd128(rng, near_lo, if b > lo { b - 1 } else { b }), // below the threshold
+                            3 => b,
+                            4 => rnd128(rng, near_lo, near_hi),
+                            _ => rnd128(rng, lo, hi),
+                        };
+                        // the first follower is below the threshold whenever the type has room
+                        xs.push(if i == 0 && b > lo { rnd128(rng, near_lo, b - 1) } else { x });
+                    }
+                    cases.push(topk_case_t("topk-threshold-default", k, ty, &xs));
+                }
+            }
         }
     }
     // k far beyond the input (2k must neither be reserved nor overflow): fixed in b35eb01
@@ -392,18 +509,24 @@ fn gen_topk(rng: &mut Rng, tier: Tier, cases: &mut Vec<Case>) {
         cases.push(topk_case("topk-huge-k", k, &[]));
         for _ in 0..nhuge {
             let n = 1 + rng.below(40) as usize;
-            let xs: Vec<i64> = (0..n).map(|_| rng.range(-20, 20)).collect();
-            cases.push(topk_case("topk-huge-k", k, &xs));
+            rot += 1;
+            let ty = TOPK_TYPES[rot % TOPK_TYPES.len()];
+            let lo = if ty.starts_with('i') { -20 } else { 0 };
+            let xs: Vec<i128> = (0..n).map(|_| rnd128(rng, lo, 20)).collect();
+            cases.push(topk_case_t("topk-huge-k", k, ty, &xs));
         }
     }
     let nrand = match tier {
-        Tier::Quick => 300,
-        Tier::Thorough => 8000,
+        Tier::Quick => 400,
+        Tier::Thorough => 10000,
     };
     for i in 0..nrand {
         let n = rng.below(if i % 7 == 0 { 400 } else { 60 }) as usize;
-        let (lo, hi) = *rng.pick(&[(0i64, 3i64), (0, 20), (-50, 50), (-(1i64 << 61), 1i64 << 61)]);
-        let mut xs: Vec<i64> = (0..n).map(|_| rng.range(lo, hi)).collect();
+        let ty = *rng.pick(&TOPK_TYPES);
+        let (tlo, thi) = ty_bounds(ty);
+        let (lo, hi) = *rng.pick(&[(0i128, 3i128), (0, 20), (-3, 3), (-50, 50), (-100000, 100000), (i128::MIN, i128::MAX)]);
+        let (lo, hi) = (lo.max(tlo), hi.min(thi));
+        let mut xs: Vec<i128> = (0..n).map(|_| rnd128(rng, lo, hi)).collect();
         match rng.below(5) {
             0 => xs.sort(),
             1 => {
@@ -419,7 +542,7 @@ fn gen_topk(rng: &mut Rng, tier: Tier, cases: &mut Vec<Case>) {
             3 => n + 1 + rng.below(50) as usize,
             _ => rng.below(n as u64 / 2 + 2) as usize,
         };
-        cases.push(topk_case("topk-random", k, &xs));
+        cases.push(topk_case_t("topk-random", k, ty, &xs));
     }
 }
 
@@ -706,12 +829,33 @@ fn exec_lt(hdr: &[&str], ops: &[String], obs: &mut Vec<String>) {
 
 fn exec_topk(hdr: &[&str], ops: &[String], obs: &mut Vec<String>) {
     let k: usize = hdr[2].parse().unwrap();
-    let mut xs: Vec<i64> = Vec::new();
+    let ty = hdr.get(3).copied().unwrap_or("i64");
+    let mut words: Vec<&str> = Vec::new();
     for l in ops {
-        xs.extend(nums::<i64>(&l.split_whitespace().collect::<Vec<_>>()[1..]));
+        words.extend(l.split_whitespace().skip(1));
     }
-    let out = top_k(xs.iter().copied(), k);
-    obs.push(format!("D out={} n={}", join(out.iter(), ","), out.len()));
+    macro_rules! run {
+        ($t:ty) => {{
+            let xs: Vec<$t> = nums::<$t>(&words);
+            let out = top_k(xs.iter().copied(), k);
+            obs.push(format!("D out={} n={}", join(out.iter(), ","), out.len()));
+        }};
+    }
+    match ty {
+        "u8" => run!(u8),
+        "u16" => run!(u16),
+        "u32" => run!(u32),
+        "u64" => run!(u64),
+        "u128" => run!(u128),
+        "usize" => run!(usize),
+        "i8" => run!(i8),
+        "i16" => run!(i16),
+        "i32" => run!(i32),
+        "i64" => run!(i64),
+        "i128" => run!(i128),
+        "isize" => run!(isize),
+        _ => panic!("unknown item type"),
+    }
 }
 
 fn exec_fw(ops: &[String], obs: &mut Vec<String>) {
